@@ -256,6 +256,7 @@ def _escape_pipeline(tree: ast.Module, inv_map: dict[str, str]) -> tuple[list[tu
 
     * kind ``'sub'``: ``R.sub(_escape_matcher, text)`` where ``R`` is a module-level regex of the recognised table form;
       ``a`` = its exclusion string (every other character of ESCAPES_INV is replaced by its table entry);
+    * kind ``'subn'``: the same substitution with a positive ``count`` (``b`` = ``chr(count)``): only the first matches are replaced;
     * kind ``'replace'``: ``text.replace(a, b)`` (Python semantics: non-overlapping, left to right, ``a`` non-empty);
       ``a``/``b`` are string literals or ``ESCAPES_INV[<literal>]``;
     * condition: always / only when ``multiline`` / only when not ``multiline`` (from ``A if multiline else B`` and from
@@ -325,31 +326,49 @@ def _escape_pipeline(tree: ast.Module, inv_map: dict[str, str]) -> tuple[list[tu
         if got not in (f'ESCAPES_INV[{m}.group()]', f'ESCAPES_INV[{m}.group(0)]', f'ESCAPES_INV[{m}[0]]'):
             raise TranslateError(f'tokenizer.py:{node.lineno}: escape_text: substitution callback computes `{got}`, not the table entry ESCAPES_INV[{m}.group()]')
 
-    def sub_call(node: ast.Call) -> tuple[ast.expr, ast.expr, ast.expr] | None:
-        """(regex, callback, string) of `R.sub(cb, s)` / `re.sub(R, cb, s)`, positional or keyword arguments, `count=0` allowed.
-        Any other argument (a count, flags) changes which matches are replaced: not modelled, fail closed."""
+    def count_of(node: ast.expr) -> int:
+        """The `count` argument of sub(): a non-negative int literal, a module-level int constant, or an attribute of `re` whose
+        value is an integer (a flag constant that ended up in the count position): 0 = unlimited, n > 0 = the first n matches."""
+        if isinstance(node, ast.Constant) and type(node.value) is int and 0 <= node.value < 0x110000:
+            return node.value
+        if isinstance(node, ast.Attribute) and isinstance(node.value, ast.Name) and node.value.id == 're' and hasattr(re, node.attr):
+            v = getattr(re, node.attr)
+            if isinstance(v, int) and 0 <= int(v) < 0x110000:
+                return int(v)
+        if isinstance(node, ast.Name):
+            try:
+                v2 = _top_assign(tree, node.id)
+            except TranslateError:
+                v2 = None
+            if isinstance(v2, ast.Constant) and type(v2.value) is int and 0 <= v2.value < 0x110000:
+                return v2.value
+        raise TranslateError(f'tokenizer.py:{node.lineno}: escape_text: count argument `{ast.unparse(node)}` of sub() is not a constant the translator can evaluate')
+
+    def sub_call(node: ast.Call) -> tuple[ast.expr, ast.expr, ast.expr, int] | None:
+        """(regex, callback, string, count) of `R.sub(cb, s[, count])` / `re.sub(R, cb, s[, count])`, positional or keyword
+        arguments.  count 0 = every match; a positive count limits the substitution to the first matches (modelled as its own
+        kind of step, never a plain table substitution).  A flags argument is not modelled: fail closed."""
         f = node.func
         if not (isinstance(f, ast.Attribute) and f.attr == 'sub'):
             return None
         module_form = isinstance(f.value, ast.Name) and f.value.id == 're'
-        names = ['pattern', 'repl', 'string'] if module_form else ['repl', 'string']
+        names = ['pattern', 'repl', 'string', 'count'] if module_form else ['repl', 'string', 'count']
         got: dict[str, ast.expr] = {}
         if any(isinstance(a, ast.Starred) for a in node.args) or any(k.arg is None for k in node.keywords):
             raise TranslateError(f'tokenizer.py:{node.lineno}: escape_text: * / ** arguments in `{ast.unparse(node)}`')
         if len(node.args) > len(names):
-            raise TranslateError(f'tokenizer.py:{node.lineno}: escape_text: `{ast.unparse(node)}` passes a count/flags argument to sub(); '
-                                 f'a limited or flagged substitution is not modelled')
+            raise TranslateError(f'tokenizer.py:{node.lineno}: escape_text: `{ast.unparse(node)}` passes a flags argument to sub(); '
+                                 f'a flagged substitution is not modelled')
         for nme, a in zip(names, node.args):
             got[nme] = a
         for k in node.keywords:
-            if k.arg == 'count' and isinstance(k.value, ast.Constant) and k.value.value == 0 and type(k.value.value) is int:
-                continue
             if k.arg not in names or k.arg in got:
                 raise TranslateError(f'tokenizer.py:{node.lineno}: escape_text: argument {k.arg}= of `{ast.unparse(node)}` is not modelled')
             got[k.arg] = k.value
-        if set(got) != set(names):
+        if set(got) | {'count'} != set(names):
             raise TranslateError(f'tokenizer.py:{node.lineno}: escape_text: `{ast.unparse(node)}` lacks an argument')
-        return (got['pattern'] if module_form else f.value), got['repl'], got['string']
+        cnt = count_of(got['count']) if 'count' in got else 0
+        return (got['pattern'] if module_form else f.value), got['repl'], got['string'], cnt
 
     def steps_of(node: ast.expr, cond: int) -> list[tuple[int, str, str, str]]:
         """Steps that compute `node` from the current value of the text variable."""
@@ -359,9 +378,10 @@ def _escape_pipeline(tree: ast.Module, inv_map: dict[str, str]) -> tuple[list[tu
             f = node.func
             sc = sub_call(node)
             if sc is not None:
-                rx_node, cb, arg = sc
+                rx_node, cb, arg, cnt = sc
                 callback_ok(cb)
                 inner = steps_of(arg, cond)
+                kind, carg = ('sub', '') if cnt == 0 else ('subn', chr(cnt))       # the count travels as the one "character" of b
                 if isinstance(rx_node, ast.IfExp):
                     c = cond_of(rx_node.test)
                     other = C_SINGLE if c == C_MULTI else C_MULTI
@@ -369,9 +389,9 @@ def _escape_pipeline(tree: ast.Module, inv_map: dict[str, str]) -> tuple[list[tu
                     for cc, rx in ((c, rx_node.body), (other, rx_node.orelse)):
                         k = both(cond, cc)
                         if k is not None:
-                            out.append((k, 'sub', regex(rx), ''))
+                            out.append((k, kind, regex(rx), carg))
                     return out
-                return inner + [(cond, 'sub', regex(rx_node), '')]
+                return inner + [(cond, kind, regex(rx_node), carg)]
             if f.attr == 'replace' and len(node.args) == 2 and not node.keywords:
                 old, new = strval(node.args[0]), strval(node.args[1])
                 if not old:
@@ -553,9 +573,10 @@ def translate() -> tuple[str, dict]:
         '(* escape_text(text, multiline) as whole-string steps applied in order: (condition, kind, a, b);',
         '   condition 0 = always, 1 = only if multiline, 2 = only if not multiline;',
         '   kind 0 = R.sub(_escape_matcher, text) with a = characters of ESCAPES_INV the regex R leaves alone,',
-        '   kind 1 = text.replace(a, b) *)',
+        '   kind 1 = text.replace(a, b),',
+        '   kind 2 = the substitution of kind 0 limited to its first n matches, b = [n] *)',
         'Definition esc_pipeline : list (N * N * list N * list N) := ['
-        + '; '.join(f'({c}, {0 if k == "sub" else 1}, {_coq_ns(map(ord, a))}, {_coq_ns(map(ord, b))})' for c, k, a, b in pipeline) + '].',
+        + '; '.join(f'({c}, {dict(sub=0, replace=1, subn=2)[k]}, {_coq_ns(map(ord, a))}, {_coq_ns(map(ord, b))})' for c, k, a, b in pipeline) + '].',
         f'Definition bare_disallowed : list N := {_coq_ns(bare)}.',
         '(* _OPERATORS: (character, Token value) *)',
         f'Definition operators : list (N * N) := {_coq_pairs(ops.items())}.',
@@ -572,7 +593,7 @@ def translate() -> tuple[str, dict]:
     lines.append('')
 
     side.update(escapes=[[chr(s), chr(c)] for s, c in esc_table], esc_prefix=prefix,
-                escape_pipeline=[{'when': ['always', 'multiline', 'not multiline'][c], 'kind': k, 'a': a, 'b': b} for c, k, a, b in pipeline], regexes=regs,
+                escape_pipeline=[{'when': ['always', 'multiline', 'not multiline'][c], 'kind': k, 'a': a, 'b': (ord(b) if k == 'subn' else b)} for c, k, a, b in pipeline], regexes=regs,
                 bare_disallowed=''.join(chr(c) for c in bare), operators={chr(k): v for k, v in ops.items()},
                 token_values=tok_vals, has_value=has_value, option_defaults=defaults, digests=digests,
                 casefold_entries=len(cf), pyx_twin=_scan_pyx())
